@@ -43,6 +43,7 @@ type Config struct {
 	SegPerMerge   int    `json:"permerge,omitempty"`
 	KeepSnapshots int    `json:"keep,omitempty"`
 	Spatial       string `json:"spatial,omitempty"`
+	BoltMmap      bool   `json:"-"`
 	EventCB       string `json:"-"`
 	AsyncErrCB    string `json:"-"`
 }
@@ -96,6 +97,11 @@ func (c Config) kv() (indexType, store string, cfg map[string]interface{}) {
 		}
 		return scorch.Name, scorch.Name, cfg
 	case EngUDBolt:
+		if c.BoltMmap {
+			// bbolt blocks a writer that has to grow the mmap until every read
+			// transaction is closed; checks that hold readers across writes pre-size it
+			cfg["initialMmapSize"] = 1 << 26
+		}
 		return upsidedown.Name, boltdb.Name, cfg
 	case EngUDLevel:
 		return upsidedown.Name, goleveldb.Name, cfg
